@@ -78,19 +78,20 @@ structure R0 (out br : List Nat) (I : List Ins) : Prop where
   chain : Chain I
   holes : holePos 0 I = (br.filter (· != 0)).reverse
   pos : br ≠ [] → out ≠ []
+  bytes : ∀ x ∈ out, x < 256
 
 /-- the pending length-less note is what the encoder's `needLen` test sees -/
 def Pend (e : Enc) (I : List Ins) : Prop :=
   (needLenB e = true ↔ LastBare I) ∧ (needLenB e = true → e.lastNote < 128)
 
-theorem r0_init : R0 [] [] [] := ⟨rfl, by simp, trivial, rfl, fun h => absurd rfl h⟩
+theorem r0_init : R0 [] [] [] := ⟨rfl, by simp, trivial, rfl, fun h => absurd rfl h, by simp⟩
 theorem pend_init : Pend {} [] := ⟨by simp [needLenB, noteish, mds_REST, mds_TIE, not_lastBare_nil], by simp [needLenB, noteish, mds_REST, mds_TIE]⟩
 
 theorem not_bare_nil : ¬ Bare [] := by rintro ⟨t, h, _⟩; cases h
 
 theorem R0.push {out br : List Nat} {I : List Ins} (h : R0 out br I) {j : Ins} (hj : InsOk j) (hne : j ≠ [])
-    (link : LastBare I → HeadOk [j]) {br' : List Nat} (hbr : br'.filter (· != 0) = br.filter (· != 0)) :
-    R0 (out ++ j) br' (I ++ [j]) where
+    (link : LastBare I → HeadOk [j]) {br' : List Nat} (hbr : br'.filter (· != 0) = br.filter (· != 0))
+    (hjb : ∀ x ∈ j, x < 256) : R0 (out ++ j) br' (I ++ [j]) where
   flat := by simp [h.flat]
   ok := by
     intro i hi
@@ -104,6 +105,11 @@ theorem R0.push {out br : List Nat} {I : List Ins} (h : R0 out br I) {j : Ins} (
     intro _ hc
     have : j = [] := (List.append_eq_nil_iff.mp hc).2
     exact hne this
+  bytes := by
+    intro x hx
+    rcases List.mem_append.mp hx with hx | hx
+    · exact h.bytes x hx
+    · exact hjb x hx
 
 theorem R0.extend {out br : List Nat} {I0 : List Ins} {t : Nat} (h : R0 out br (I0 ++ [[t]])) (h1 : 0x81 ≤ t) (h2 : t < 0xe0)
     {l : Nat} (hl : l < 0x80) : R0 (out ++ [l]) br (I0 ++ [[t, l]]) where
@@ -125,6 +131,11 @@ theorem R0.extend {out br : List Nat} {I0 : List Ins} {t : Nat} (h : R0 out br (
     rw [holePos_append, holePos_nohole [[t]] _ (by simp)] at this
     rw [holePos_append, holePos_nohole [[t, l]] _ (by simp), ← this]
   pos := by intro _ hc; simp at hc
+  bytes := by
+    intro x hx
+    rcases List.mem_append.mp hx with hx | hx
+    · exact h.bytes x hx
+    · simp only [List.mem_singleton] at hx; subst hx; omega
 
 theorem R0.hole {out r : List Nat} {I : List Ins} (h : R0 out (0 :: r) I) : R0 out (out.length :: r) (I ++ [[]]) where
   flat := by simp [h.flat]
@@ -142,6 +153,7 @@ theorem R0.hole {out r : List Nat} {I : List Ins} (h : R0 out (0 :: r) I) : R0 o
     rw [holePos_append, hh, h.flat]
     simp [holePos, hne]
   pos := fun _ => h.pos (by simp)
+  bytes := h.bytes
 
 theorem chain_cons_cmd {c : Ins} {cb : Nat} {cr : List Nat} (hc : c = cb :: cr) (hge : cb ≥ 0xe0) (X : List Ins) :
     Chain (c :: X) ↔ Chain X := by
@@ -153,21 +165,32 @@ theorem chain_cons_cmd {c : Ins} {cb : Nat} {cr : List Nat} (hc : c = cb :: cr) 
 /-- the back-patch: the innermost hole is filled with a command, the loop end is appended -/
 theorem R0.patch {out r : List Nat} {b : Nat} {I : List Ins} (h : R0 out (b :: r) I) (hb : b ≠ 0) :
     ∃ A B, I = A ++ [] :: B ∧ out = A.flatten ++ B.flatten ∧ A.flatten.length = b ∧
-      ∀ (c : Ins) (cb : Nat) (cr : List Nat), c = cb :: cr → cb ≥ 0xe0 → InsOk c → ∀ n : Nat,
+      ∀ (c : Ins) (cb : Nat) (cr : List Nat), c = cb :: cr → cb ≥ 0xe0 → InsOk c → (∀ x ∈ c, x < 256) → ∀ n : Nat, n < 256 →
         R0 (A.flatten ++ c ++ (B.flatten ++ [mds_LPF, n])) r (A ++ c :: B ++ [[mds_LPF, n]]) := by
   have hh := h.holes
   have hbt : (b != 0) = true := by simpa using hb
   simp only [List.filter_cons, hbt, if_true, List.reverse_cons] at hh
   obtain ⟨A, B, hI, hlen, hA, hB⟩ := holePos_split I 0 _ b hh
-  refine ⟨A, B, hI, ?_, by simpa using hlen, ?_⟩
-  · rw [← h.flat, hI]; simp
-  intro c cb cr hc hge hcok n
+  have hout : out = A.flatten ++ B.flatten := by rw [← h.flat, hI]; simp
+  refine ⟨A, B, hI, hout, by simpa using hlen, ?_⟩
+  intro c cb cr hc hge hcok hcb n hn
   have hlpf : InsOk [mds_LPF, n] := .cmd mds_LPF [n] (by decide) (by simp [cmdLen, mds_LPF, mds_SLR, mds_FINISH, mds_LP, mds_JUMP, mds_LPBL, twoArgOps, mds_FMCREG, mds_FMTL, mds_FMTLM, mds_FMREG])
   have hch := h.chain
   rw [hI] at hch
   obtain ⟨c1, c2, _⟩ := (chain_append A ([] :: B)).mp hch
   have c2' : Chain B := c2.2
-  refine ⟨by simp [List.append_assoc], ?_, ?_, ?_, fun _ hc' => ?_⟩
+  refine ⟨by simp [List.append_assoc], ?_, ?_, ?_, fun _ hc' => ?_, ?_⟩
+  rotate_right
+  · intro x hx
+    have hb' := h.bytes
+    rw [hout] at hb'
+    simp only [List.mem_append, List.mem_cons, List.mem_nil_iff, or_false] at hx
+    rcases hx with (hx | hx) | hx | rfl | rfl
+    · exact hb' x (by simp [hx])
+    · exact hcb x hx
+    · exact hb' x (by simp [hx])
+    · decide
+    · exact hn
   · intro i hi
     have hok := h.ok
     rw [hI] at hok
